@@ -2,6 +2,8 @@ import CobaVerif.Driver.JsonUtil
 import CobaVerif.Model.C02
 import CobaVerif.Generated.C02GzPredicates
 import CobaVerif.Generated.C02ScanConsts
+import CobaVerif.Generated.C02MaxChunker
+import CobaVerif.Generated.C02SinkLoop
 open Lean Coba.J
 
 namespace Coba.C02.Driver
@@ -130,13 +132,25 @@ def handle (req : Json) : Except String Json := do
       | none => []
       | some R =>
         let tasks := makeTasks fl.finishedFix R.K w.triples
-        [("appended_ordered", ofList (idxOfRec tbl) (preamble fl w.ver w.exp R.K ++ (runOrder chunkOf maxTasks tasks).filterMap w.out))]
+        let app := preamble fl w.ver w.exp R.K ++ (runOrder chunkOf maxTasks tasks).filterMap w.out
+        let chunks := chunkTasks chunkOf maxTasks tasks
+        [("appended_ordered", ofList (idxOfRec tbl) app),
+         -- phase 5: sizes of the chunks ChunkTasks hands on; `_max_chunker` run as the EXTRACTED program on the whole task list
+         ("chunk_lens", ofList (fun c => ofNat c.length) chunks),
+         -- phase 5: the records of every chunk in ProcessTasks order (multi-process runs: each must be a subsequence of the file)
+         ("chunk_seqs", ofList (fun c => ofList (idxOfRec tbl) ((processOrder c).filterMap w.out)) chunks),
+         ("chunker_prog_same", Json.bool (runChunker Coba.Generated.C02Chunker.prog maxTasks tasks == batches maxTasks tasks)),
+         -- phase 5: lines per `with self:` of DiskSink.write (= per gzip member) for the records this run appends, with the
+         -- batch size EXTRACTED from Experiment.run
+         ("sink_shape", ofList (fun g => ofNat g.length) (sinkWrite Coba.Generated.C02Sink.batch (app.map w.c.enc)))]
   let mism (data : Option Bytes) : List (String × Json) :=
     match data with
     | none => []
     | some f => match resumeChecked fl w shapeOf given (some f), resumeChecked fl w shapeOf altGiven (some f) with
       | some (m, _), some (ma, oa) => [("mismatch", Json.bool m), ("mismatch_alt", Json.bool ma), ("alt_appended", ofNat oa.appended.length)]
       | _, _ => []
+  let winSizes ← natList (fieldD req "win_sizes" (Json.arr #[]))
+  let chunkerProbe ← (← arr (fieldD req "chunker_probe" (Json.arr #[]))).mapM natList
   let name ← natList (fieldD req "name" (Json.arr #[]))
   -- entry point: the gzip test is the one extracted from the sink; when it disagrees with what the real sink wrote (reported
   -- by the harness as A:gz-decision-sink) the data is interpreted the way the real file is
@@ -157,7 +171,13 @@ def handle (req : Json) : Except String Json := do
     else
       let data := cut w L (← nat c)
       pure (outcomeJson tbl w L (textOf data) fl ([("n_complete", ofNat (nCompleteB w.c L data)),
-        ("from_file_cut", Json.bool (fromFile w.c isGz scan name data).isSome)] ++ mism (textOf data) ++ ordered (textOf data))))
+        ("from_file_cut", Json.bool (fromFile w.c isGz scan name data).isSome),
+        -- phase 5: the universal-newline reader on the same bytes
+        ("from_file_cut_u", Json.bool (decodeAllU w.c data).isSome),
+        ("univ_same", Json.bool (decodeAllU w.c data == decodeAll w.c data)),
+        ("win_same", ofList (fun W => Json.arr #[ofNat W, Json.bool (repairWin w.c W data == repair w.c data),
+                                                  Json.bool (decide (NL ∈ data.drop (data.length - W)) || decide (data.length ≤ W))]) winSizes)]
+        ++ mism (textOf data) ++ ordered (textOf data))))
   let wholeFile : Bytes := if gz && !ms.isEmpty then flatM ms else logFile w L
   let nodir := (runEntry fl w isGz scan ⟨name, false, none⟩).isNone
   let fromFileLog := fromFile w.c isGz scan name wholeFile
@@ -174,6 +194,15 @@ def handle (req : Json) : Except String Json := do
              ("read_size", ofNat Coba.Generated.C02Scan.readSize),
              ("scan_extracted", Json.bool Coba.Generated.C02Scan.extracted),
              ("nodir_raises", Json.bool nodir),
+             ("no_cr", Json.bool (L.all (fun r => !(w.c.enc r).contains CR))),
+             ("chunker_extracted", Json.bool Coba.Generated.C02Chunker.extracted),
+             ("sink_extracted", Json.bool Coba.Generated.C02Sink.extracted),
+             ("sink_batch", ofNat Coba.Generated.C02Sink.batch),
+             ("chunker_probe", ofList (fun nm => match nm with
+                | [n, m] => Json.arr #[ofNat n, ofNat m,
+                    ofList (fun (b : List Task) => ofNat b.length) (runChunker Coba.Generated.C02Chunker.prog m ((List.range n).map Task.pval)),
+                    Json.bool (runChunker Coba.Generated.C02Chunker.prog m ((List.range n).map Task.pval) == batches m ((List.range n).map Task.pval))]
+                | _ => Json.null) chunkerProbe),
              ("from_file", Json.str (match fromFileLog with | none => "raise" | some F => if F == L then "log" else "other")),
              ("cuts", Json.arr outs.toArray)])
 
